@@ -12,8 +12,8 @@ from .common import Check, ROOT, lean_driver, quiet_naunet, silenced, tier_and_s
 from .rendering import Rendered, render
 
 quiet_naunet()
-MODULES = ["NaunetProps.C06"]
-THEOREMS = ["Naunet.C06.window_sem", "Naunet.C06.outside_zero", "Naunet.C06.inside_rate",
+MODULES = ["NaunetProps.C06", "NaunetProps.C03b"]
+THEOREMS = ["Naunet.SolverObj.rate_arrays_ok", "Naunet.C06.window_sem", "Naunet.C06.outside_zero", "Naunet.C06.inside_rate",
             "Naunet.C06.no_window_always_active", "Naunet.C06.window_partition", "Naunet.C06.activeCount_zero_of_lt"]
 RULE = ("networks read from native / KIDA / UMIST / KROME files whose reactions declare windows (none, lower only, upper only, "
         "both, zero and negative bounds, adjacent piecewise fits of one reaction); every rate statement's guard is parsed and "
@@ -295,6 +295,7 @@ def run(argv):
                     chk.corr_break("guard", {"tmin": r["tmin"], "tmax": r["tmax"], "guard": cond}, a, impl)
                 else:
                     chk.traces += 1
+    dedup_then_render_check(chk)
     # KROME bound reader vs model
     if getattr(chk, "lean_ok", False):
         from naunet.reactions.kromereaction import KROMEReaction
@@ -318,6 +319,55 @@ def run(argv):
             else:
                 chk.traces += 1
     return chk.finish()
+
+
+def dedup_then_render_check(chk):
+    """A network whose file repeats one line by accident is cleaned with the default duplicate search before it is rendered (what
+    `naunet extend --remove-duplicate` does).  The pieces of a piecewise fit differ in their windows only: none of them is a
+    duplicate, and after the clean-up exactly one piece is active at every temperature of the fitted range."""
+    from naunet.network import Network
+    from .ode_checks import reset_species_state
+    bounds = [10, 300, 1000, 41000]
+    pieces = [{"re": ["H", "CO"], "pr": ["C", "OH"], "tmin": float(a), "tmax": float(b), "alpha": 2.0 + i} for i, (a, b) in enumerate(zip(bounds, bounds[1:]))]
+    other = [{"re": ["C", "O"], "pr": ["CO"], "tmin": -1.0, "tmax": -1.0, "alpha": 7.0}]
+    listed = pieces + other + [dict(pieces[0]), dict(other[0])]          # the first piece and the plain reaction listed twice
+    d = chk.scratch / "dedup"
+    d.mkdir(parents=True, exist_ok=True)
+    lines = []
+    for i, r in enumerate(listed):
+        rs = "".join(f"{x:<11}" for x in r["re"] + [""] * (3 - len(r["re"])))
+        ps = "".join(f"{x:<11}" for x in r["pr"] + [""] * (5 - len(r["pr"])))
+        lines.append(f"{rs} {ps} {r['alpha']:10.3e} {0.0:10.3e} {0.0:10.3e} 2.00e+00 0.00e+00 logn  1 "
+                     f"{int(r['tmin']):>6d} {int(r['tmax']):>6d} {3:>2d} {i + 1:>5d} 1  1")
+    (d / "fit.kida").write_text("\n".join(lines) + "\n")
+    reset_species_state()
+    try:
+        with silenced():
+            net = Network(filelist=[str(d / "fit.kida")], fileformats=["kida"], elements=["H", "C", "N", "O"], pseudo_elements=["CR"])
+            _, dupidx, _ = net.find_duplicate_reaction()
+            net.remove_reaction(dupidx)
+            render(net, "dense", d / "dense")
+    except Exception as e:
+        chk.violation({"kind": "dedup-render-raised", "error": type(e).__name__}, f"cleaning and rendering a piecewise fit raised {e}")
+        return
+    rd = Rendered(d / "dense", "dense")
+    stmts = rd.rates("k")
+    chk.count(("dedup",), nontrivial=True)
+    chk.hist["dedup-then-render"] += 1
+    for T in [5.0, 10.0, 299.999, 300.0, 650.0, 999.999, 1000.0, 40999.0, 41000.0]:
+        vals = []
+        for _, rhs, cond in stmts:
+            on = bool(ceval.ev(cparse.parse_expr(cond), {"Tgas": T})) if cond else True
+            vals.append(float(ceval.ev(cparse.parse_expr(rhs), {"Tgas": T})) if on else None)
+        fit_active = [v for v in vals if v is not None and v in (2.0, 3.0, 4.0)]
+        want = 1 if 10.0 <= T < 41000.0 else 0
+        if len(fit_active) != want or sorted(set(dupidx)) != [len(pieces) + len(other), len(pieces) + len(other) + 1]:
+            chk.violation({"kind": "dedup-drops-window-pieces"},
+                          f"after the default duplicate clean-up {len(fit_active)} piece(s) of the fit over {bounds} are active at T={T!r} "
+                          f"(reported as duplicates: positions {sorted(dupidx)}; the repeated lines are positions "
+                          f"{[len(pieces) + len(other), len(pieces) + len(other) + 1]})", input=lines,
+                          guards=[c for _, _, c in stmts])
+            return
 
 
 def compiled_rates(chk, path, backend, temps):
